@@ -28,13 +28,16 @@ structure Cfg where
   scheduleBumps : Bool      -- `++fiber->sched_id` in janet_schedule_general (all signals, cancel included)
   canceledGuard : Bool      -- `if (fiber->gc.flags & JANET_FIBER_EV_FLAG_CANCELED) return;`
   sleepRounds : Bool        -- ts_delta: `round(delta * 1000)` (false: truncation)
+  hasReaderChecks : Bool    -- janet_channel_has_reader (select's "give can complete now" test) looks for a LIVE reader only
+  timeoutAfterValidation : Bool  -- stream cfuns call janet_addtimeout only after every argument check, directly before waiting
   deriving DecidableEq, Repr
 
 def Cfg.allChecked (c : Cfg) : Bool :=
   c.runFilter && c.timerCheck && c.pushSkipsStale && c.popSkipsStale && c.closeChecks && c.procCheck &&
-  c.deadlineChecks && c.didResumeDetaches && c.scheduleBumps && c.canceledGuard && c.sleepRounds
+  c.deadlineChecks && c.didResumeDetaches && c.scheduleBumps && c.canceledGuard && c.sleepRounds &&
+  c.hasReaderChecks && c.timeoutAfterValidation
 
-def Cfg.full : Cfg := ⟨true, true, true, true, true, true, true, true, true, true, true⟩
+def Cfg.full : Cfg := ⟨true, true, true, true, true, true, true, true, true, true, true, true, true⟩
 
 inductive Val where
   | nil
@@ -158,6 +161,14 @@ def chanPush (cfg : Cfg) (w : World) (f c : Nat) (x : Val) (choice : Bool) : Wor
   | (some r, rest) =>
       (schedule cfg { w with chans := set w.chans c { (w.chans c) with rp := rest } } r.fiber
         (match x with | .kw n => (if r.choice then Val.takeR c n else x) | _ => x) false r.schedId w.now (.chanRead c), false)
+
+/-- janet_channel_has_reader -/
+def hasReader (cfg : Cfg) (w : World) (c : Nat) : Bool :=
+  if cfg.hasReaderChecks then (w.chans c).rp.any (fun e => live w e.fiber e.schedId) else !(w.chans c).rp.isEmpty
+
+/-- first loop of cfun_channel_choice, give clause on an open channel: "this give completes right now" -/
+def selectGiveReady (cfg : Cfg) (w : World) (c : Nat) : Bool :=
+  decide ((w.chans c).items.length < (w.chans c).limit) || hasReader cfg w c
 
 /-- the part of janet_channel_pop_with_lock after an item was obtained: wake the next pending writer -/
 def chanPopWake (cfg : Cfg) (w : World) (c : Nat) (items : List Val) : World :=
